@@ -168,6 +168,15 @@ def main(argv=None):
     for e in extra:
         for f in e.get('findings', []):
             by_sig.setdefault(f['signature'], []).append((e, f))
+    # concrete fallback for inconclusive paths: one point of the path condition is run on the real library, so that a
+    # plain wrong answer behind a modelling gap is still caught (labelled `fallback`; not a solver verdict)
+    n_fallback = 0
+    for r in results:
+        for fb in r.get('fallbacks', [])[:4]:
+            f = {'label': '*', 'sig': {}, 'choices': fb['choices'], 'values': fb['values'], 'labels': fb['labels'],
+                 'notes': fb['notes'], 'detail': 'concrete fallback of an inconclusive path: ' + fb['reason']}
+            by_sig.setdefault(f"{r['harness']}:fallback:{fb['reason'][:50]}:{n_fallback}", []).append((r, f))
+            n_fallback += 1
     violations, known_hits, nonrepro = [], [], []
     counts = {}
     for r in results:
@@ -193,9 +202,15 @@ def main(argv=None):
     for sig, lst in sorted(per.items()):
         hit = next(((p, f, out) for p, f, rc, out in lst if rc == 1), None)
         n = len(by_sig[sig])
+        if hit is not None and hit[1].get('label') == '*':
+            import re as _re
+            m_ = _re.search(r'^FAILED-LABELS: (.*)$', hit[2], _re.M)
+            labs = (m_.group(1).split('|') if m_ else ['?'])
+            sig = f"{sig.split(':fallback:')[0]}:{labs[0]}{{fallback=1}}"
         if hit is None:
             p, f, rc, out = lst[-1]
-            nonrepro.append((sig, p, rc, out))
+            if f.get('label') != '*':
+                nonrepro.append((sig, p, rc, out))
             continue
         k = next((k for k in known if k.get('status') == 'known' and fnmatch.fnmatchcase(sig, k['signature'])), None)
         if k is not None:
@@ -268,6 +283,7 @@ def main(argv=None):
             'counterexamples': {'signatures': len(by_sig), 'reproduced_new': len(violations),
                                 'reproduced_known': len(known_hits), 'not_reproduced': len(nonrepro)},
             'known_findings_reported': [k['signature'] for k, _, _, _ in known_hits],
+            'concrete_fallback_runs_for_inconclusive_paths': n_fallback,
         },
         'assumptions': meta.get('assumptions', []),
         'wall_s': round(time.time() - t0, 2),
